@@ -10,7 +10,9 @@ THEOREMS = ["C07_referral_strictly_deeper", "C07_auth_answer_from_universe", "C0
             "C07_referral_progress", "C07_no_referral_same_delegation", "C07_answer_provenance", "C07_filter_accepts_plain_answer", "C07_filter_accepts_denial", "C07_filter_accepts_referral", "C07_serve_is_auth_answer", "C07_last_hop_partial", "C07_referral_hop_partial", "C07_universe_oracle_delivers",
             "C07_correct_depth0", "C07_correct_depth1", "C07_sort_names_ord_permutation", "C07_hints_zone_lookup",
             "C07_simple_cache_get_after_insert_all", "C07_example_depth0", "C07_example_depth1",
-            "C07_correct_chain", "C07_correct_chain_real_cache", "C07_chain_cache_laws", "C07_example_depth3"]
+            "C07_correct_chain", "C07_correct_chain_real_cache", "C07_chain_cache_laws", "C07_example_depth3",
+            "C07_empty_cache_consistent", "C07_correct_warm", "C07_correct_warm_real_cache", "C07_warm_cache_laws",
+            "C07_example_warm", "C07_sequence", "C07_sequence_outcomes", "C07_example_sequence"]
 RULE = ("cases: generated consistent universes (root + a chain of 1..5 nested zones, optional provider branch for "
         "out-of-bailiwick nameserver names, optional second branch for cross-zone aliases; 1..3 nameservers per zone, "
         "in-bailiwick / sibling / out-of-bailiwick names, glue present or absent, v4-only / v6-only / dual addresses; alias "
